@@ -146,6 +146,9 @@ type Interp struct {
 	pc           []*term.Term
 	pcSet        map[int]bool
 	facts        map[int][]*term.Term
+	expAtoms     []*term.Term // E(.) atoms of the current path (pairwise inverse lemma)
+	watch        map[*Value]string // watched scalar cells -> obligation label (watch.go)
+	definedLabel string            // label of definedness obligations (watch.go), "" = off
 	steps        int
 	depth        int
 	curInstr     ssa.Instruction
@@ -1163,6 +1166,9 @@ func (in *Interp) runPath(fn *ssa.Function, args []Value, prefix []Decision, id 
 	in.pc = nil
 	in.pcSet = map[int]bool{}
 	in.facts = map[int][]*term.Term{}
+	in.expAtoms = nil
+	in.watch = nil
+	in.definedLabel = ""
 	in.steps = 0
 	in.depth = 0
 	in.varCount = map[string]int{}
